@@ -601,7 +601,7 @@ func TestC07(t *testing.T) {
 	hx.Check[c07Case]{
 		Property: "C07", Part: "certificates",
 		Rule:  "accept-first generation (valid chain root->0..2 intermediates->leaf, intermediates in the layout or handed over by the caller, 1-3 constraints of which one is satisfied through wildcard/exact/permuted/empty forms) followed by at most one flip (leaf/intermediate/root expired or not yet valid, intermediate missing, foreign root or issuer, non-CA issuer, attribute subset/superset/disjoint/must-be-empty, repeated value, no constraints, non-wildcard roots, only the unsatisfied constraints); observed at CertificateConstraint.Check, Step.CheckCertConstraints, VerifyCertificateTrust and (1 in 4) end-to-end on a certificate-signed link; non-trivial = a flip or a non-wildcard attribute; distinct by case JSON",
-		Cases: hx.Pick(600, 20000),
+		Cases: hx.Pick(600, 200000),
 		Gen:   c07Gen, Run: c07Run,
 	}.Execute(t)
 }
